@@ -301,6 +301,46 @@ def run_case(case, stats):
                 if g2 != exp:
                     raise Violation("input_kinds", "kind_or_form_differs",
                                     f"{kind} via {form} of image[{p}:] gives {g2}, stream parse gave {exp}", p=p)
+        _cast_views(root, name, cs, chunk, stats, p)
+
+
+def _cast_views(root, name, cs, chunk, stats, p):
+    """memoryviews whose items are wider than a byte (cast to 'H', 'I', 'Q'): same bytes, but len() counts ITEMS. Views
+    over the whole (trimmed) data and over exactly size-of-the-type items are parsed through every call form and compared
+    with the parse of the same bytes given as a bytes object."""
+    size = getattr(root, "size", None)
+    for fmt, k in (("H", 2), ("I", 4), ("Q", 8)):
+        datas = [chunk[: len(chunk) // k * k]]
+        if isinstance(size, int) and 0 < size * k <= len(chunk):
+            datas.append(chunk[: size * k])
+        for data in datas:
+            if not data:
+                continue
+            try:
+                ref = ("val", _values_only(observe(root.reads(bytes(data)))))
+            except Exception as e:  # noqa: BLE001
+                ref = ("exc", type(e).__name__)
+            for form in ("call", "read", "reads", "cs.read"):
+                mv = memoryview(data).cast(fmt)
+                try:
+                    if form == "call":
+                        v = root(mv)
+                    elif form == "read":
+                        v = root.read(mv)
+                    elif form == "reads":
+                        v = root.reads(mv)
+                    elif name is not None:
+                        v = cs.read(name, mv)
+                    else:
+                        continue
+                    got = ("val", _values_only(observe(v)))
+                except Exception as e:  # noqa: BLE001
+                    got = ("exc", type(e).__name__)
+                stats.count("evaluations")
+                stats.count("probe.memoryview_with_wide_items")
+                if got != ref:
+                    raise Violation("input_kinds", "kind_or_form_differs",
+                                    f"memoryview cast to {fmt!r} ({len(mv)} items, {len(data)} bytes) via {form} gives {got}, the same bytes as a bytes object give {ref}", p=p)
 
 
 def shrink_candidates(case, vinfo):
